@@ -556,7 +556,12 @@ func TestC05GroupByTuple(t *testing.T) {
 		nkeys := 2 + round%2
 		keys := []string{"x", "y", "z"}[:nkeys]
 		sel := append([]string{"count($line)", "sum(n)"}, keys...)
-		qs := "select " + strings.Join(sel, ",") + " group by " + strings.Join(keys, ",") + " logformat generickv outfile \"" + outfile + "\""
+		// both key=value formats: the generic one and dtail's default format (standard fields, then key=value pairs)
+		format, from, prefix := "generickv", "", ""
+		if round%2 == 1 {
+			format, from, prefix = "default", " from T", "INFO|20211002-071209|1|c05.go:1|8|14|7|0.21|471h0m21s|MAPREDUCE:T|"
+		}
+		qs := "select " + strings.Join(sel, ",") + from + " group by " + strings.Join(keys, ",") + " logformat " + format + " outfile \"" + outfile + "\""
 		query, err := mapr.NewQuery(qs)
 		if err != nil {
 			t.Fatal(err)
@@ -572,13 +577,15 @@ func TestC05GroupByTuple(t *testing.T) {
 			parts := []string{fmt.Sprintf("n=%d", i+1)}
 			vals := []string{}
 			for _, k := range keys {
-				v := []string{"a", "b", "", "a"}[rng.Intn(4)] // "" = the line lacks the field
+				// "" = the line lacks the field; a value may contain '=' itself (a URL's query string, base64 padding): the key
+				// ends at the FIRST '='
+				v := []string{"a", "b", "", "a", "u=1", "q=="}[rng.Intn(6)]
 				vals = append(vals, v)
 				if v != "" {
 					parts = append(parts, k+"="+v)
 				}
 			}
-			lines = append(lines, strings.Join(parts, "|"))
+			lines = append(lines, prefix+strings.Join(parts, "|"))
 			tk := strings.Join(vals, "\x00")
 			if want[tk] == nil {
 				want[tk] = &agg{vals: vals}
